@@ -999,3 +999,156 @@ pub fn run_c07(cfg: &Cfg) -> i32 {
     let _ = Prng::new(0);
     rep.finish()
 }
+
+// ------------------------------------------------------------------------------------------
+// C12b: framing after the hello, over the real transports
+// ------------------------------------------------------------------------------------------
+
+pub fn run_c12b(cfg: &Cfg) -> i32 {
+    let mut rep = Report::new(
+        "C12",
+        cfg,
+        "one evaluation = one real session (TLS / SSH / child process) against a server that advertises a subset of {:base:1.0, :base:1.1} and, as RFC 6242 4.1 requires, switches to chunked framing after the hello exchange iff both peers advertised :base:1.1; \
+         distinct = distinct (transport, advertised versions); non-trivial = all",
+    );
+    let mut cases = Vec::new();
+    let mut id = 0;
+    for tr in [Tr::Tls, Tr::Ssh, Tr::Cli] {
+        for versions in [vec!["1.0"], vec!["1.1"], vec!["1.0", "1.1"], vec![]] {
+            id += 1;
+            cases.push(json!({"kind": "framing", "id": id, "tr": tr.name(), "server_versions": versions}));
+        }
+    }
+    let results = run_cases(cases, 12, &[], Duration::from_secs(40));
+    for cr in &results {
+        let (c, r) = (&cr.case, &cr.result);
+        let key = format!("{}|{}", c["tr"], c["server_versions"]);
+        rep.case(Some(key.as_bytes()));
+        match r["verdict"].as_str().unwrap_or("") {
+            "held" => rep.count("held"),
+            "violated" => {
+                let symptoms: Vec<String> = r["symptoms"].as_array().map(|a| a.iter().filter_map(|s| s.as_str().map(ToString::to_string)).collect()).unwrap_or_default();
+                let primary = symptoms.first().cloned().unwrap_or_default();
+                rep.violation(&format!("framing:{}:{primary}", c["tr"].as_str().unwrap_or("?")), &format!("server advertises {}: {symptoms:?}", c["server_versions"]), json!({"case": c, "result": r}));
+            }
+            other => rep.inconclusive(&key, &format!("{other}: {}", r["why"].as_str().unwrap_or(""))),
+        }
+        rep.count(&format!("request_framing:{}", r["request_framing_seen_by_server"].as_str().unwrap_or("?")));
+        if rep.samples.len() < rep.max_samples {
+            rep.sample(json!({"case": c, "establish": r["establish"], "request_framing_seen_by_server": r["request_framing_seen_by_server"], "first_rpc": r["first_rpc"]}));
+        }
+    }
+    rep.finish()
+}
+
+// ------------------------------------------------------------------------------------------
+// C18b: drop the reader while a message has partly arrived
+// ------------------------------------------------------------------------------------------
+
+pub fn run_c18b(cfg: &Cfg) -> i32 {
+    let mut rep = Report::new(
+        "C18",
+        cfg,
+        "one evaluation = one real session with two outstanding requests in which the future that is reading from the transport is dropped (timeout) after part of another request's reply has arrived; the survivor and a fresh request must complete; \
+         distinct = distinct (transport, which future reads, cut fraction); non-trivial = all",
+    );
+    let mut cases = Vec::new();
+    let mut id = 0;
+    for tr in [Tr::Tls, Tr::Ssh, Tr::Cli] {
+        for which in [0, 1] {
+            for f in [1, 2, 3] {
+                id += 1;
+                cases.push(json!({"kind": "drop-partial", "id": id, "tr": tr.name(), "drop": which, "fraction": f}));
+            }
+        }
+    }
+    let results = run_cases(cases, 12, &[], Duration::from_secs(40));
+    for cr in &results {
+        let (c, r) = (&cr.case, &cr.result);
+        let key = format!("{}|{}|{}", c["tr"], c["drop"], c["fraction"]);
+        rep.case(Some(key.as_bytes()));
+        match r["verdict"].as_str().unwrap_or("") {
+            "held" => rep.count("held"),
+            "violated" => {
+                let symptoms: Vec<String> = r["symptoms"].as_array().map(|a| a.iter().filter_map(|s| s.as_str().map(ToString::to_string)).collect()).unwrap_or_default();
+                rep.violation(&format!("drop-partial:{}:{}", c["tr"].as_str().unwrap_or("?"), symptoms.first().cloned().unwrap_or_default()), &format!("{symptoms:?}"), json!({"case": c, "result": r}));
+            }
+            other => rep.inconclusive(&key, &format!("{other}: {}", r["why"].as_str().unwrap_or(""))),
+        }
+        if rep.samples.len() < rep.max_samples {
+            rep.sample(json!({"case": c, "client": r["client"], "cut_at": r["cut_at"], "reply_len": r["reply_len"]}));
+        }
+    }
+    rep.finish()
+}
+
+// ------------------------------------------------------------------------------------------
+// C20 (library part): credentials in the TRACE output of the three transports
+// ------------------------------------------------------------------------------------------
+
+const PW_ATOMS: &[&str] = &["correct", "horse", "Tr0ub4dor&3", "\"quoted\"", "back\\slash", " space ", "tab\t", "pässwörd", "日本語", "'single'", "{brace}", "%25", "$HOME", "a=b;c", "ünï"];
+
+pub fn gen_password(r: &mut Prng) -> String {
+    let mut s = String::new();
+    while s.len() < 14 {
+        s.push_str(*r.pick(PW_ATOMS));
+        s.push_str(&format!("{}", r.below(1000)));
+    }
+    s
+}
+
+pub fn run_c20_lib(cfg: &Cfg) -> i32 {
+    let mut rep = Report::new(
+        "C20",
+        cfg,
+        "one evaluation = one connection attempt (successful or failing) over SSH / TLS / child process with a fresh secret, while a capturing subscriber records the complete TRACE-level output (span fields and bridged `log` records included), which is then searched for every >= 12-byte window of the secret in clear, Debug-escaped, hex (6 separator styles), base64 (3 alignments, 2 alphabets) and byte-list form; \
+         distinct = distinct (transport, outcome, secret); non-trivial = all",
+    );
+    rep.assumptions.push("trivially encoded = the encodings enumerated in harness/src/secrets.rs".into());
+    let mut cases = Vec::new();
+    let n = cfg.count(30, 900);
+    for i in 0..n {
+        let idx = cfg.case_index(i);
+        let mut r = cfg.prng("C20", idx);
+        let (tr, outcome, key, cert) = match r.below(10) {
+            0 => ("tls", "success", "client.key", "client.crt"),
+            1 => ("tls", "success", "client.sec1.key", "client.crt"),
+            2 => ("tls", "success", "client-rsa.key", "client-rsa.crt"),
+            3 => ("tls", "success", "client-rsa.pkcs1.key", "client-rsa.crt"),
+            4 => ("tls", "untrusted-ca", "client.key", "client.crt"),
+            5 => ("tls", "peer-closes-during-hello", "client-rsa.key", "client-rsa.crt"),
+            6 => ("ssh", "wrong-password", "", ""),
+            7 => ("ssh", "peer-closes-during-hello", "", ""),
+            8 => ("cli", "success", "", ""),
+            _ => ("ssh", "success", "", ""),
+        };
+        cases.push(json!({"kind": "creds", "id": idx, "tr": tr, "outcome": outcome, "password": gen_password(&mut r), "key": key, "cert": cert}));
+    }
+    let results = run_cases(cases, 12, &["--trace".into(), "vh=trace".into(), "--full-text".into(), "1".into()], Duration::from_secs(40));
+    for cr in &results {
+        let (c, r) = (&cr.case, &cr.result);
+        let key = format!("{}|{}|{}|{}", c["tr"], c["outcome"], c["password"], c["key"]);
+        rep.case(Some(key.as_bytes()));
+        rep.count(&format!("attempts:{}:{}", c["tr"].as_str().unwrap_or("?"), c["outcome"].as_str().unwrap_or("?")));
+        rep.count_n("log_bytes_searched", r["log_bytes"].as_u64().unwrap_or(0));
+        rep.count_n("log_lines_searched", r["log_lines"].as_u64().unwrap_or(0));
+        match r["verdict"].as_str().unwrap_or("") {
+            "held" => rep.count("held"),
+            "violated" => {
+                for h in r["hits"].as_array().cloned().unwrap_or_default() {
+                    let secret = h["secret"].as_str().unwrap_or("?").split(':').next().unwrap_or("?").to_string();
+                    rep.violation(
+                        &format!("{}:{}:{}:{}", c["tr"].as_str().unwrap_or("?"), secret, h["encoding"].as_str().unwrap_or("?").split('(').next().unwrap_or("?"), h["target"].as_str().unwrap_or("?")),
+                        &format!("{} appears in the log ({}), emitted by {}", h["secret"], h["encoding"], h["target"]),
+                        json!({"case": {"tr": c["tr"], "outcome": c["outcome"]}, "hit": h, "client": r["client"]}),
+                    );
+                }
+            }
+            other => rep.inconclusive(&key, &format!("{other}: {}", r["why"].as_str().unwrap_or(""))),
+        }
+        if rep.samples.len() < rep.max_samples {
+            rep.sample(json!({"tr": c["tr"], "outcome": c["outcome"], "client": r["client"], "log_lines": r["log_lines"], "secrets_checked": r["secrets_checked"]}));
+        }
+    }
+    rep.finish()
+}
